@@ -28,7 +28,14 @@ for j in $(seq 1 "$JOBS"); do
   pids+=($!)
 done
 for p in "${pids[@]}"; do wait "$p"; done
-execs=$(grep -h "^Done" "$WORK"/log*.txt | awk '{s+=$2} END {print s+0}')
+# executions: the "Done N runs" line of each job, or (when a job was stopped inside a long case)
+# the last "#N" status line
+execs=0
+for lf in "$WORK"/log*.txt; do
+  n=$(grep -h "^Done" "$lf" | awk '{print $2}' | tail -1)
+  [ -z "$n" ] && n=$(grep -ho "^#[0-9]*" "$lf" | tr -d '#' | sort -n | tail -1)
+  execs=$((execs + ${n:-0}))
+done
 cov=$(grep -h "cov: " "$WORK"/log*.txt | sed 's/.*cov: \([0-9]*\).*/\1/' | sort -n | tail -1)
 corp=$(ls "$WORK"/c1 2>/dev/null | wc -l)
 echo "fuzz campaign $T: $JOBS jobs x ${SECS}s, $execs executions, max edge coverage ${cov:-0}, corpus of job 1: $corp files"
